@@ -208,17 +208,10 @@ theorem incoming_progress {s : St} (i : Inv4 s) (h : s.incoming ≠ 0) : Progres
     exact disp_progress i (i.base.link.qd hne)
   · exact core_progress hk ⟨hq, fun hf => by simp [hf, ReqPc.inflight] at hin⟩
 
-/-- **closing_progress (deadlock freedom).** In every reachable state of a connection that is shutting
-down (Close was called, or the reader or the writer failed) and is not yet done, either one of the
-connection's own critical sections is enabled, or the connection is waiting for a user handler that
-has not returned, for a transport `Write` that has not returned, for the peer's answer to an outgoing
-call whose context is still live — or everything is finished, the transport has been closed, and the
-reader is parked in the transport's `Read`, which must now fail because the transport honours `Close`
-(then `rx` runs and `done` is closed). There is no other way to be stuck. -/
-theorem closing_progress (ls : List Label) (s : St) (h : run {} ls = some s)
-    (hsd : s.shuttingDown = true) (hnd : s.done = false) :
+/-- The case analysis behind `closing_progress`, from the invariant alone (so that it can be used at any
+state known to satisfy `Inv4`, not only at the end of a run from the initial state). -/
+theorem progress_of_inv4 {s : St} (i : Inv4 s) (hsd : s.shuttingDown = true) (hnd : s.done = false) :
     Progress s ∨ (s.reader = .read ∧ s.closerUsed = true) := by
-  have i := inv4_run ls inv4_init h
   by_cases hidle : s.idle = true
   · -- nothing in flight: the transport has been closed; the reader is the only thing left
     have ht := i.ti (by simpa [fview, FV.idle, St.idle] using hidle) (by simpa [fview, FV.shuttingDown, St.shuttingDown] using hsd)
@@ -259,6 +252,18 @@ theorem closing_progress (ls : List Label) (s : St) (h : run {} ls = some s)
       · exact notif_progress i h2
     · obtain ⟨n, hn⟩ := List.exists_mem_of_ne_nil _ h1
       exact call_progress i hn
+
+/-- **closing_progress (deadlock freedom).** In every reachable state of a connection that is shutting
+down (Close was called, or the reader or the writer failed) and is not yet done, either one of the
+connection's own critical sections is enabled, or the connection is waiting for a user handler that
+has not returned, for a transport `Write` that has not returned, for the peer's answer to an outgoing
+call whose context is still live — or everything is finished, the transport has been closed, and the
+reader is parked in the transport's `Read`, which must now fail because the transport honours `Close`
+(then `rx` runs and `done` is closed). There is no other way to be stuck. -/
+theorem closing_progress (ls : List Label) (s : St) (h : run {} ls = some s)
+    (hsd : s.shuttingDown = true) (hnd : s.done = false) :
+    Progress s ∨ (s.reader = .read ∧ s.closerUsed = true) :=
+  progress_of_inv4 (inv4_run ls inv4_init h) hsd hnd
 
 /-- **done_wakes_everyone.** Once `done` is closed no `Close()` or `Wait()` caller is left blocked on it,
 and each of them that has not returned yet can take its last step. -/
